@@ -3,6 +3,9 @@
 //! case = one generated corpus (model documents -> real index: 1..N segments, deletes, optional
 //! sort, optional merge) on which many generated query trees are evaluated with every collector
 //! path and compared with the naive evaluator of `qshared`.
+//!
+//! Second stream (`exists`, module `c03_util`): the ExistsQuery family on a schema with a fast
+//! field of every kind and two JSON fast fields, same collector panel, own oracle.
 #[path = "qshared/mod.rs"]
 mod qshared;
 /// ExistsQuery family (typed / str / facet / JSON fast fields, json_subpaths) - own schema and oracle
@@ -13,14 +16,14 @@ use std::collections::BTreeSet;
 
 use qshared::*;
 use serde_json::{json, Value};
-use tantivy::collector::{Count, DocSetCollector, FilterCollector, MultiCollector, TopDocs};
+use tantivy::collector::{BytesFilterCollector, Count, DocSetCollector, FilterCollector, MultiCollector, TopDocs};
 use tantivy::query::Query;
 use tantivy::{DocAddress, Order, Searcher};
 use tvmon::report::*;
 use tvmon::rng::Rng;
 
 #[derive(Clone, Debug, PartialEq)]
-enum Obs {
+pub enum Obs {
     /// ids returned, plus (for TopDocs) whether an address was returned twice
     Ids(BTreeSet<u64>, bool),
     Cnt(usize),
@@ -32,6 +35,40 @@ pub struct View {
     pub searcher: Searcher,
     pub table: Vec<Vec<u64>>,
     pub total_docs: usize,
+    /// id -> ordinal of its segment when that segment has no deleted document (u32::MAX else)
+    clean_segment_of: Vec<u32>,
+}
+
+impl View {
+    pub fn new(searcher: Searcher, table: Vec<Vec<u64>>, total_docs: usize) -> View {
+        let n = table.iter().flatten().map(|&i| i as usize + 1).max().unwrap_or(0);
+        let mut clean_segment_of = vec![u32::MAX; n];
+        for (ord, sr) in searcher.segment_readers().iter().enumerate() {
+            if !sr.has_deletes() {
+                for &id in &table[ord] {
+                    clean_segment_of[id as usize] = ord as u32;
+                }
+            }
+        }
+        View { searcher, table, total_docs, clean_segment_of }
+    }
+    /// Evidence: the expected hits of a query include more than 64 documents of one segment
+    /// without deletes - there the collectors that need no score receive the hits in blocks
+    /// (`collect_block`, several calls per segment) instead of one by one.
+    pub fn block_collection_reached(&self, expected: &BTreeSet<u64>) -> bool {
+        let mut per_seg: Vec<u32> = vec![0; self.table.len()];
+        for id in expected {
+            if let Some(&ord) = self.clean_segment_of.get(*id as usize) {
+                if ord != u32::MAX {
+                    per_seg[ord as usize] += 1;
+                    if per_seg[ord as usize] > 64 {
+                        return true;
+                    }
+                }
+            }
+        }
+        false
+    }
 }
 
 struct Layout<'a> {
@@ -48,6 +85,30 @@ fn filter3(id: u64) -> bool {
 fn filter2(id: u64) -> bool {
     id % 2 == 0
 }
+/// predicate of the FilterCollector over the (none / full / optional / multivalued) i64 fast field
+/// `i_fast`: documented meaning = at least one value of the document satisfies it
+pub fn filter_i(v: i64) -> bool {
+    v > 0
+}
+/// predicate of the BytesFilterCollector over the bytes fast field `by_fast` (the empty byte string
+/// is a value and satisfies it)
+pub fn filter_by(b: &[u8]) -> bool {
+    b.len() != 1
+}
+
+/// Which documents pass the filter wrapper of a collector path: `by_values(name, id)` answers for
+/// the paths filtered on field values (it looks the model document up), the id filters are here.
+pub fn passes(name: &str, id: u64, by_values: &dyn Fn(&str, u64) -> bool) -> bool {
+    if name.starts_with("filter3") {
+        filter3(id)
+    } else if name.starts_with("filter2") {
+        filter2(id)
+    } else if name.starts_with("filter") {
+        by_values(name, id)
+    } else {
+        true
+    }
+}
 
 fn ids_of<I: IntoIterator<Item = DocAddress>>(l: &View, it: I) -> Result<Obs, String> {
     let mut s = BTreeSet::new();
@@ -59,6 +120,20 @@ fn ids_of<I: IntoIterator<Item = DocAddress>>(l: &View, it: I) -> Result<Obs, St
         }
     }
     Ok(Obs::Ids(s, dup))
+}
+
+impl Layout<'_> {
+    /// the filter wrappers over field values, answered from the model document (id = index)
+    fn by_values(&self, name: &str, id: u64) -> bool {
+        let Some(d) = self.corpus.docs.get(id as usize) else { return false };
+        if name.starts_with("filteri") {
+            d.vals[T_I].iter().any(|v| matches!(v, Val::I(x) if filter_i(*x)))
+        } else if name.starts_with("filterby") {
+            d.vals[T_BY].iter().any(|v| matches!(v, Val::By(b) if filter_by(b)))
+        } else {
+            true
+        }
+    }
 }
 
 /// every collector path; names are stable (they appear in signatures)
@@ -98,6 +173,33 @@ pub fn panel(l: &View, q: &dyn Query, full: bool) -> Vec<(&'static str, Result<O
                 filter2,
                 TopDocs::with_limit(limit).order_by_fast_field::<u64>("id", Order::Desc),
             ),
+        )
+        .map_err(e)
+        .and_then(|r| ids_of(l, r.into_iter().map(|x| x.1))),
+    ));
+    // the filter column is none / full / optional / multivalued depending on the corpus
+    out.push((
+        "filteri.topdocs_fastfield",
+        s.search(
+            q,
+            &FilterCollector::new(
+                "i_fast".to_string(),
+                filter_i,
+                TopDocs::with_limit(limit).order_by_fast_field::<u64>("id", Order::Asc),
+            ),
+        )
+        .map_err(e)
+        .and_then(|r| ids_of(l, r.into_iter().map(|x| x.1))),
+    ));
+    out.push((
+        "filterby.count",
+        s.search(q, &BytesFilterCollector::new("by_fast".to_string(), filter_by, Count)).map(Obs::Cnt).map_err(e),
+    ));
+    out.push((
+        "filterby.topdocs",
+        s.search(
+            q,
+            &BytesFilterCollector::new("by_fast".to_string(), filter_by, TopDocs::with_limit(limit).order_by_score()),
         )
         .map_err(e)
         .and_then(|r| ids_of(l, r.into_iter().map(|x| x.1))),
@@ -184,15 +286,6 @@ pub fn panel(l: &View, q: &dyn Query, full: bool) -> Vec<(&'static str, Result<O
     out
 }
 
-fn filter_of(name: &str) -> Option<fn(u64) -> bool> {
-    if name.starts_with("filter3") {
-        Some(filter3)
-    } else if name.starts_with("filter2") {
-        Some(filter2)
-    } else {
-        None
-    }
-}
 
 /// (must, may) id sets of the live documents under `mode`
 fn expected(l: &Layout, q: &Q, mode: Mode) -> (BTreeSet<u64>, BTreeSet<u64>) {
@@ -210,35 +303,36 @@ fn expected(l: &Layout, q: &Q, mode: Mode) -> (BTreeSet<u64>, BTreeSet<u64>) {
     (must, may)
 }
 
-fn restrict(s: &BTreeSet<u64>, f: Option<fn(u64) -> bool>) -> BTreeSet<u64> {
-    match f {
-        None => s.clone(),
-        Some(f) => s.iter().copied().filter(|&i| f(i)).collect(),
+fn restrict(s: &BTreeSet<u64>, name: &str, by_values: &dyn Fn(&str, u64) -> bool) -> BTreeSet<u64> {
+    if !name.starts_with("filter") {
+        return s.clone();
     }
+    s.iter().copied().filter(|&i| passes(name, i, by_values)).collect()
 }
 
-struct Verdict {
+pub struct Verdict {
     /// collector names whose observation contradicts the oracle
-    wrong: Vec<&'static str>,
+    pub wrong: Vec<&'static str>,
     /// collector names that returned an error
-    errors: Vec<(&'static str, String)>,
+    pub errors: Vec<(&'static str, String)>,
     /// unfiltered id observations disagree with each other / with the counts
-    disagree: bool,
-    dup: bool,
-    detail: Vec<Value>,
+    pub disagree: bool,
+    pub dup: bool,
+    pub detail: Vec<Value>,
 }
 
-fn judge(
+pub fn judge(
     obs: &[(&'static str, Result<Obs, String>)],
     must: &BTreeSet<u64>,
     may: &BTreeSet<u64>,
+    by_values: &dyn Fn(&str, u64) -> bool,
 ) -> Verdict {
     let mut v = Verdict { wrong: vec![], errors: vec![], disagree: false, dup: false, detail: vec![] };
     let mut sizes: BTreeSet<usize> = BTreeSet::new();
     let mut sets: Vec<&BTreeSet<u64>> = vec![];
     for (name, o) in obs {
-        let f = filter_of(name);
-        let (mu, ma) = (restrict(must, f), restrict(may, f));
+        let filtered = name.starts_with("filter");
+        let (mu, ma) = (restrict(must, name, by_values), restrict(may, name, by_values));
         match o {
             Err(e) => {
                 v.errors.push((name, e.clone()));
@@ -249,7 +343,7 @@ fn judge(
                     v.wrong.push(name);
                     v.detail.push(json!({"collector": name, "count": c, "expected_count": if mu.len() == ma.len() { json!(mu.len()) } else { json!([mu.len(), ma.len()]) }}));
                 }
-                if f.is_none() {
+                if !filtered {
                     sizes.insert(*c);
                 }
             }
@@ -259,12 +353,12 @@ fn judge(
                 }
                 let missing: Vec<u64> = mu.difference(s).copied().take(5).collect();
                 let extra: Vec<u64> = s.difference(&ma).copied().take(5).collect();
-                if !missing.is_empty() || !extra.is_empty() {
+                if *dup || !missing.is_empty() || !extra.is_empty() {
                     v.wrong.push(name);
                     v.detail.push(json!({"collector": name, "returned": s.len(), "expected": mu.len(),
-                        "missing_ids": missing, "unexpected_ids": extra}));
+                        "missing_ids": missing, "unexpected_ids": extra, "an_address_returned_twice": dup}));
                 }
-                if f.is_none() {
+                if !filtered {
                     sizes.insert(s.len());
                     sets.push(s);
                 }
@@ -278,7 +372,7 @@ fn judge(
 }
 
 impl Verdict {
-    fn ok(&self) -> bool {
+    pub fn ok(&self) -> bool {
         self.wrong.is_empty() && self.errors.is_empty() && !self.disagree && !self.dup
     }
 }
@@ -323,9 +417,8 @@ fn explained_by_shortcut(l: &Layout, q: &Q, obs: &[(&'static str, Result<Obs, St
     }
     let alts = [expected(l, q, Mode::Proper), expected(l, q, Mode::ShortcutAll), expected(l, q, Mode::ShortcutNested)];
     obs.iter().all(|(name, o)| {
-        let f = filter_of(name);
         alts.iter().any(|(mu, ma)| {
-            let (mu, ma) = (restrict(mu, f), restrict(ma, f));
+            let (mu, ma) = (restrict(mu, name, &|n, id| l.by_values(n, id)), restrict(ma, name, &|n, id| l.by_values(n, id)));
             match o {
                 Ok(Obs::Cnt(c)) => mu.len() <= *c && *c <= ma.len(),
                 Ok(Obs::Ids(s, dup)) => !dup && mu.is_subset(s) && s.is_subset(&ma),
@@ -352,7 +445,7 @@ fn outcome(l: &Layout, q: &Q, full: bool) -> Outcome {
             out.panic = Some(p);
         }
         Ok(obs) => {
-            let v = judge(&obs, &out.must, &out.may);
+            let v = judge(&obs, &out.must, &out.may, &|n, id| l.by_values(n, id));
             out.cat = if v.ok() {
                 Cat::Ok
             } else if !v.errors.is_empty() {
@@ -455,7 +548,7 @@ fn family(n: &str) -> &'static str {
     }
 }
 
-fn err_class(e: &str) -> String {
+pub fn err_class(e: &str) -> String {
     let head: String = e.chars().take_while(|c| c.is_ascii_alphanumeric()).collect();
     if head.is_empty() {
         "error".into()
@@ -476,6 +569,9 @@ fn check_pair(rep: &mut Report, l: &Layout, q: &Q, sample: bool) {
     let (must, may) = expected(l, q, Mode::Proper);
     if must != may {
         rep.count("pairs_with_documentation_open_cases(slop)", 1);
+    }
+    if l.view.block_collection_reached(&must) {
+        rep.count("pairs_with_more_than_64_hits_in_a_segment_without_deletes", 1);
     }
     let o = outcome(l, q, true);
     rep.count("collector_runs", o.obs.len() as u64);
@@ -502,9 +598,78 @@ fn check_pair(rep: &mut Report, l: &Layout, q: &Q, sample: bool) {
     report_failure(rep, l, q, &o);
 }
 
+/// When only collector paths under a filter wrapper contradict the oracle (and the unfiltered ones
+/// agree with it and with each other): the wrappers and wrapped collector families concerned.
+pub fn filter_wrapper_only(v: &Verdict) -> Option<String> {
+    if v.wrong.is_empty() || v.disagree || !v.wrong.iter().all(|n| n.starts_with("filter")) {
+        return None;
+    }
+    let wrappers: BTreeSet<&str> = v
+        .wrong
+        .iter()
+        .map(|n| if n.starts_with("filterby") { "BytesFilterCollector" } else { "FilterCollector" })
+        .collect();
+    let inner: BTreeSet<&str> = v.wrong.iter().map(|n| family(n)).collect();
+    Some(format!(
+        "filter-wrapper:{}:over={}",
+        wrappers.into_iter().collect::<Vec<_>>().join("+"),
+        inner.into_iter().collect::<Vec<_>>().join("+")
+    ))
+}
+
+/// Direction of a contradiction + which collector families are wrong (value-free, for the
+/// signature), and up to three ids of documents involved (for the witness).
+pub fn mismatch_class(v: &Verdict) -> (String, Vec<u64>) {
+    // direction of the contradiction (counts are compared with their own expectation,
+    // which differs for the filtered collectors)
+    let exp_range = |d: &Value| -> Option<(u64, u64)> {
+        let e = d.get("expected_count")?;
+        if let Some(n) = e.as_u64() {
+            Some((n, n))
+        } else {
+            let a = e.as_array()?;
+            Some((a.first()?.as_u64()?, a.get(1)?.as_u64()?))
+        }
+    };
+    let missing = v.detail.iter().any(|d| {
+        d.get("missing_ids").and_then(|x| x.as_array()).map(|a| !a.is_empty()).unwrap_or(false)
+            || matches!((d.get("count").and_then(|c| c.as_u64()), exp_range(d)), (Some(c), Some((lo, _))) if c < lo)
+    });
+    let extra = v.detail.iter().any(|d| {
+        d.get("unexpected_ids").and_then(|x| x.as_array()).map(|a| !a.is_empty()).unwrap_or(false)
+            || matches!((d.get("count").and_then(|c| c.as_u64()), exp_range(d)), (Some(c), Some((_, hi))) if c > hi)
+    });
+    let dir = match (missing, extra) {
+        (true, false) => "docs-missing",
+        (false, true) => "docs-unexpected",
+        (true, true) => "docs-missing-and-unexpected",
+        _ => "open-zone",
+    };
+    let which = if v.dup {
+        "duplicate-address".to_string()
+    } else if v.disagree {
+        let fam: BTreeSet<&str> = v.wrong.iter().map(|n| family(n)).collect();
+        format!("{dir}:collectors-disagree:wrong={}", fam.into_iter().collect::<Vec<_>>().join("+"))
+    } else {
+        format!("{dir}:all-collectors-contradict-oracle")
+    };
+    let mut ids: Vec<u64> = vec![];
+    for d in &v.detail {
+        for k in ["missing_ids", "unexpected_ids"] {
+            if let Some(a) = d.get(k).and_then(|x| x.as_array()) {
+                ids.extend(a.iter().filter_map(|x| x.as_u64()));
+            }
+        }
+    }
+    ids.sort();
+    ids.dedup();
+    ids.truncate(3);
+    (which, ids)
+}
+
 /// keeps at most a few witnesses per signature and thread, so that a frequent finding cannot
 /// push rarer ones out of the (bounded) report
-fn push_violation(rep: &mut Report, sig: String, detail: Value) {
+pub fn push_violation(rep: &mut Report, sig: String, detail: Value) {
     let n = rep.violations.iter().filter(|v| v.sig == sig).count();
     if n >= 3 {
         rep.count("violations_beyond_3_per_signature_and_thread", 1);
@@ -617,50 +782,19 @@ fn report_failure(rep: &mut Report, l: &Layout, q: &Q, o: &Outcome) {
                     }
                 }
             }
-            // direction of the contradiction (counts are compared with their own expectation,
-            // which differs for the filtered collectors)
-            let exp_range = |d: &Value| -> Option<(u64, u64)> {
-                let e = d.get("expected_count")?;
-                if let Some(n) = e.as_u64() {
-                    Some((n, n))
-                } else {
-                    let a = e.as_array()?;
-                    Some((a.first()?.as_u64()?, a.get(1)?.as_u64()?))
-                }
-            };
-            let missing = v.detail.iter().any(|d| {
-                d.get("missing_ids").and_then(|x| x.as_array()).map(|a| !a.is_empty()).unwrap_or(false)
-                    || matches!((d.get("count").and_then(|c| c.as_u64()), exp_range(d)), (Some(c), Some((lo, _))) if c < lo)
-            });
-            let extra = v.detail.iter().any(|d| {
-                d.get("unexpected_ids").and_then(|x| x.as_array()).map(|a| !a.is_empty()).unwrap_or(false)
-                    || matches!((d.get("count").and_then(|c| c.as_u64()), exp_range(d)), (Some(c), Some((_, hi))) if c > hi)
-            });
-            let dir = match (missing, extra) {
-                (true, false) => "docs-missing",
-                (false, true) => "docs-unexpected",
-                (true, true) => "docs-missing-and-unexpected",
-                _ => "open-zone",
-            };
-            let which = if v.dup {
-                "duplicate-address".to_string()
-            } else if v.disagree {
-                let fam: BTreeSet<&str> = v.wrong.iter().map(|n| family(n)).collect();
-                format!("{dir}:collectors-disagree:wrong={}", fam.into_iter().collect::<Vec<_>>().join("+"))
-            } else {
-                format!("{dir}:all-collectors-contradict-oracle")
-            };
-            let mut ids: Vec<u64> = vec![];
-            for d in &v.detail {
-                for k in ["missing_ids", "unexpected_ids"] {
-                    if let Some(a) = d.get(k).and_then(|x| x.as_array()) {
-                        ids.extend(a.iter().filter_map(|x| x.as_u64()));
-                    }
-                }
+            let (which, ids) = mismatch_class(v);
+            if let Some(w) = filter_wrapper_only(v) {
+                // every unfiltered path agrees with the oracle: the query is evaluated correctly,
+                // a filter wrapper hands on the wrong documents - named after the wrapper, not
+                // after the query
+                push_violation(
+                    rep,
+                    format!("mismatch[{w}][{which}]"),
+                    with(json!({"expected_matches": if o.must == o.may { json!(o.must.len()) } else { json!([o.must.len(), o.may.len()]) },
+                        "contradictions": v.detail, "segments": l.view.searcher.segment_readers().iter().map(|r| json!({"max_doc": r.max_doc(), "has_deletes": r.has_deletes()})).collect::<Vec<_>>()})),
+                );
+                return;
             }
-            ids.sort();
-            ids.dedup();
-            ids.truncate(3);
             let docs: Vec<Value> = ids
                 .iter()
                 .filter_map(|id| l.corpus.docs.iter().find(|d| d.id == *id))
@@ -804,7 +938,7 @@ fn run_case(case: u64, rng: &mut Rng, rep: &mut Report, quick: bool) {
         }
         rep.observe("segments", nseg.min(5).to_string());
         let layout = Layout {
-            view: View { searcher, table, total_docs },
+            view: View::new(searcher, table, total_docs),
             fields: &built.fields,
             live: live.clone(),
             corpus: &corpus,
@@ -854,13 +988,17 @@ fn main() {
         start_watchdog("C03", std::time::Duration::from_secs(std::env::var("VERIF_WATCHDOG_SECS").ok().and_then(|v| v.parse().ok()).unwrap_or(if quick { 240 } else { 1500 })), ctx.seed);
     }
     let n = ctx.scale(64, 900) as u64;
-    let rep = run_cases(&ctx, "main", n, |case, rng, rep| run_case(case, rng, rep, quick));
+    let mut rep = run_cases(&ctx, "main", n, |case, rng, rep| run_case(case, rng, rep, quick));
+    // the ExistsQuery family on its own schema (every fast field kind, JSON sub-paths)
+    let nx = ctx.scale(160, 1600) as u64;
+    rep.merge(run_cases(&ctx, "exists", nx, |case, rng, rep| c03_util::run_case(case, rng, rep, quick)));
     simple_finish(
         &ctx,
         rep,
-        "evaluation = one (corpus layout, query tree) pair run through 16 collector paths (Count, Query::count, DocSetCollector, TopDocs(limit>=num_docs), MultiCollector unscored/scored, FilterCollector over DocSet/TopDocs/Count, tuple collectors) and compared with the naive evaluator over the model documents (ids through the `id` fast field). Corpora: tiny/small/127-129-257 block/>4096/>8192-doc segments, 1..4 segments, deletes at any commit, optional sort_by_field, optional merge (all / first two) re-run on the same queries; terms in all/none/one/127/128/129/>4096/half of a segment. Non-trivial = the expected result is neither empty nor all live documents; distinct = query-kind tree shape x corpus class x layout.",
+        "evaluation = one (corpus layout, query tree) pair run through 23 collector paths (Count, Query::count, DocSetCollector, TopDocs by score and by fast field (limit>=num_docs), MultiCollector unscored/scored, FilterCollector on the id / on the none-full-optional-multivalued i64 field / BytesFilterCollector, each over DocSet / Count / TopDocs by score / TopDocs by fast field / a MultiCollector, tuple collectors) and compared with the naive evaluator over the model documents (ids through the `id` fast field); the counter pairs_with_more_than_64_hits_in_a_segment_without_deletes says how often the block-collection route of the no-score collectors was taken. Phrase and phrase-prefix queries also with position gaps and a non-zero first offset (offset constructors), mostly read off a document. Term-only boolean queries read with frequencies (block-max WAND intersection / union) have their own template. Stream `exists`: own schema with a fast field of every kind (u64 i64 f64 bool date ip bytes, raw / tokenized str, facet) and two JSON fast fields (raw strings; tokenized strings + expand_dots), per-segment cardinality profiles none / full / optional dense / sparse / one document / multi / multi sparse / multi all; ExistsQuery on every field, on the JSON root, every path prefix and near-miss paths with json_subpaths false / true (0..12 columns of mixed cardinality per question and segment, see exists_columns_in_segment), alone and under must / must_not / should / const / boost, oracle = the model document has a non-null leaf at (or, json_subpaths, below) the path; as committed (1..4 segments, deletes) and merged into one segment. Corpora: tiny/small/127-129-257 block/>4096/>8192-doc segments, 1..4 segments, deletes at any commit, optional sort_by_field, optional merge (all / first two) re-run on the same queries; terms in all/none/one/127/128/129/>4096/half of a segment. Non-trivial = the expected result is neither empty nor all live documents; distinct = query-kind tree shape x corpus class x layout.",
         ctx.scale(1000, 20_000),
         &[
+            "exists stream: JSON keys are non-empty ascii without control characters; a dot inside a key is one path segment for `js` (queried escaped) and a separator for `jx` (expand_dots); strings of the tokenized JSON / str fast fields always yield at least one token; the empty string counts as a value of the raw str columns; ExistsQuery on the JSON field itself with json_subpaths = false matches nothing (documented on ExistsQuery)",
             "documents are lowercase ascii words joined by single spaces, so the default tokenizer yields exactly the generated tokens (DESIGN.md §4)",
             "phrase slop: a match is demanded when both the sum of adjacent gaps and the sum of per-term moves are <= slop, a non-match when the spread of (position - offset) exceeds slop; in between (documentation open) only agreement between collectors is demanded; repeated terms are not generated under slop",
             "fuzzy queries whose answer would differ between optimal-string-alignment and unrestricted Damerau distance are generated with transposition_cost_one = false",
